@@ -56,7 +56,32 @@ pub struct Checkpoint {
     pub pending: Option<HashMap<String, String>>,
 }
 //!end
+#[verifier::external_body] pub fn cp_not_found(e: std::io::Error) -> (r: MonorailError) ensures r is TrackingCheckpointNotFound { unimplemented!() }
 impl Checkpoint {
+//!fn src/core/tracking.rs Checkpoint::open rules=R10,R12,R17 props=C19
+    pub(crate) fn open(file_path: &path::Path, Tracked(w): Tracked<&mut World>) -> ⟦(res: ⟧Result<Self, MonorailError>⟦)⟧
+@        requires recoverable(*old(w)),
+@        ensures
+@            final(w).fs == old(w).fs, recoverable(*final(w)),
+@            // C19: what `show` (and every command that consults the checkpoint) gets is what the checkpoint file denotes: the record decoded from
+@            // the WHOLE zstd stream in the file - whatever its size or compression ratio - with the path it was opened from
+@            res matches Ok(cp) ==> old(w).fs.dom().contains(file_path@) && cp.path@ == file_path@
+@                && json_parse::<Checkpoint>(zstd_dec(old(w).fs[file_path@])) is Some
+@                && cp.id == json_parse::<Checkpoint>(zstd_dec(old(w).fs[file_path@]))->Some_0.id && cp.pending == json_parse::<Checkpoint>(zstd_dec(old(w).fs[file_path@]))->Some_0.pending, // [C19]
+@            // no file: "no checkpoint" (TrackingCheckpointNotFound), which the callers treat as such
+@            (!old(w).fs.dom().contains(file_path@) && final(w).io_faults == old(w).io_faults) ==> res matches Err(MonorailError::TrackingCheckpointNotFound(_)), // [C19]
+    {
+        let file = fs::OpenOptions::new()
+            .read(true)
+            .open(file_path, Tracked(w))
+            .map_err(cp_not_found)?;
+        let br = iox::BufReader::new(file);
+        let mut decoder = zstd::stream::read::Decoder::new(br)?;
+        let mut cp: Checkpoint = from_reader_dec(&mut decoder)?;
+        cp.path = file_path.to_path_buf();
+        Ok(cp)
+    }
+//!end
 //!fn src/core/tracking.rs Checkpoint::save rules=R10,R12,R17 props=C19
     pub(crate) fn save(&mut self, Tracked(w): Tracked<&mut World>) -> ⟦(res: ⟧Result<(), MonorailError>⟦)⟧
 @        requires
